@@ -1097,6 +1097,14 @@ func libraryGoroutines() int {
 }
 
 func streamLife(c *Ctx) {
+	if strings.HasPrefix(replayOp, "rseq ") {
+		rseqOp(c, replayOp)
+		return
+	}
+	if strings.HasPrefix(replayOp, "sseq ") {
+		sseqOp(c, replayOp)
+		return
+	}
 	var scs []scenario
 	for _, proto := range []string{"connect", "grpc", "grpcweb"} {
 		proto := proto
@@ -1643,6 +1651,21 @@ func streamLife(c *Ctx) {
 		}
 		resp.body = items
 		rseqOp(c, fmt.Sprintf("rseq proto=%s max=200 n=%d hdr=%s body=%s trl=%s", proto, len(items)+3, showHdr(resp.header), showBody(resp.body), showHdr(resp.trailer)))
+		// the same response through the typed wrapper: Receive until the end (plus two), with Err()
+		// asked along the way, then a random mix of Receive / Err / Close
+		ops := ""
+		for i := 0; i < len(items)+2; i++ {
+			ops += "r"
+			if r.Chance(30) {
+				ops += "e"
+			}
+		}
+		for i := 0; i < 6; i++ {
+			ops += string("recrec"[r.Intn(6)])
+		}
+		sresp2 := *resp
+		sresp2.header = hdr{"Content-Type": {ctFor(proto, "server", "raw")}}
+		sseqOp(c, fmt.Sprintf("sseq proto=%s max=200 ops=%s hdr=%s body=%s trl=%s", proto, ops, showHdr(sresp2.header), showBody(sresp2.body), showHdr(sresp2.trailer)))
 	}
 }
 
@@ -1692,6 +1715,64 @@ func rseqOp(c *Ctx, op string) {
 		}
 	}
 	c.Count("rseq:" + proto)
+	c.Emit(op, ans, true)
+}
+
+// sseqOp: a sequence of Receive / Err / Close calls on one ServerStreamForClient over a
+// structured body (the transport fills in HTTP trailers when it reports the end of the body).
+//
+//	sseq proto=P max=N ops=WORD(r|e|c) hdr= body= trl=  ->  t:HEX | f | e:none | e:CODE | c  ...
+func sseqOp(c *Ctx, op string) {
+	c.Begin(op)
+	a := kvArgs(strings.Fields(op))
+	proto := a["proto"]
+	resp := &sresp{status: 200, header: parseHdr(a["hdr"]), body: parseBody(a["body"]), trailer: parseHdr(a["trl"])}
+	header, body, trailer := resp.serialize(proto)
+	var out []string
+	sawFalse, errAfterFalse, changed := false, "", false
+	ans := safely(func() string {
+		hc := &shapedClient{status: 200, header: header, trailer: trailer, body: body, shape: transportShape{}}
+		cl := connect.NewClient[[]byte, []byte](hc, "http://h/s/m", append(protoOpts(proto), connect.WithCodec(rawCodec{"raw"}), connect.WithReadMaxBytes(atoi(a["max"])),
+			connect.WithAcceptCompression("rle", newRLEDecompressor, newRLECompressor))...)
+		st, err := cl.CallServerStream(context.Background(), connect.NewRequest(&[]byte{1}))
+		if err != nil {
+			return "call:" + codeName(err)
+		}
+		for _, ch := range a["ops"] {
+			switch ch {
+			case 'r':
+				if st.Receive() {
+					out = append(out, "t:"+hx(*st.Msg()))
+					if sawFalse {
+						changed = true
+					}
+				} else {
+					out = append(out, "f")
+					sawFalse = true
+				}
+			case 'e':
+				e := "e:none"
+				if err := st.Err(); err != nil {
+					e = fmt.Sprintf("e:%d", connect.CodeOf(err))
+				}
+				out = append(out, e)
+				if sawFalse {
+					if errAfterFalse != "" && errAfterFalse != e {
+						changed = true
+					}
+					errAfterFalse = e
+				}
+			case 'c':
+				_ = st.Close()
+				out = append(out, "c")
+			}
+		}
+		return strings.Join(out, " ")
+	})
+	if changed {
+		c.Fail("life-receive-sticky", op, ans, "after Receive returned false, a later Receive delivered a message or Err() changed its verdict (Close must not wipe it)")
+	}
+	c.Count("sseq:" + proto)
 	c.Emit(op, ans, true)
 }
 
